@@ -234,4 +234,20 @@ def check (params : List String) (lines : List String) : CaseResult := Id.run do
     r := { r with bad := "no `obs cancel at` / `obs after` line" :: r.bad }
   return { r with nontrivial := !short }
 
+/-- family c13 seen through C07: the harness ends every case by cancelling the context and waiting for the timer's
+goroutines to go (`leak k` if k of them are still there; `stuck …` if they never came to rest). -/
+def checkTimerGoroutines (_params : List String) (lines : List String) : CaseResult := Id.run do
+  let mut r : CaseResult := {}
+  let mut cancelled := false
+  for ln in lines do
+    match words ln with
+    | ["leak", k] =>
+      r := { r with specs := s!"leak:timer_goroutine_after_cancel: {k} goroutine(s) of pkg/timer still alive after the context was cancelled" :: r.specs }
+    | "stuck" :: rest =>
+      if (" ".intercalate rest).startsWith "not-quiescent" then
+        r := { r with specs := s!"leak:timer_goroutine_blocked: a goroutine of pkg/timer neither waits for the clock / the context nor ends ({" ".intercalate rest})" :: r.specs }
+    | "o" :: k :: _ => if k == "cancel" || k == "racecancel" then cancelled := true
+    | _ => pure ()
+  return { r with nontrivial := cancelled }
+
 end Bpmn.Driver.C07
